@@ -111,14 +111,17 @@ fn scary_for_windows(name: &str) -> bool {
 
 /// Matches <https://github.com/googlefonts/fontra/blob/15bc0b8401054390484cfb86d509d633d29657a1/src/fontra/backends/filenames.py#L40-L64>
 pub fn string_to_filename(string: &str, suffix: &str) -> String {
-    let string_bytes = string.as_bytes();
-    let mut code_digits: Vec<_> = string_bytes
+    // Record which characters would change if the name were lowercased, so that names
+    // differing only by case get distinct filenames on case-insensitive volumes. This is
+    // per character, not per byte, and not only ASCII: É/é or ǅ/ǆ differ only by case too.
+    let string_chars: Vec<char> = string.chars().collect();
+    let mut code_digits: Vec<_> = string_chars
         .chunks(5)
         .map(|chunk| {
             let mut digit = 0;
             let mut bit = 1;
-            for byte in chunk {
-                if byte.is_ascii_uppercase() {
+            for c in chunk {
+                if c.to_lowercase().next() != Some(*c) {
                     digit |= bit
                 }
                 bit <<= 1;
